@@ -135,7 +135,9 @@ func extendMacroEnv(macro *object.Macro, args []object.Quote) *State {
 	extended := object.NewEnclosedEnvironment(macro.Env)
 
 	for paramIdx, param := range macro.Parameters {
-		extended.Set(param.Value().Literal(), args[paramIdx])
+		// parameters are local to the expansion: a parameter named like a macro (or any other outer name)
+		// must shadow it, not be assigned through to it.
+		extended.SetNoChecks(param.Value().Literal(), args[paramIdx], true)
 	}
 
 	return &State{env: extended}
